@@ -148,6 +148,7 @@ type modelIn struct {
 	epoch  int64 // fake ns of config.Parse
 	t1, t2 int64 // fake ns interval of the build
 	final  bool  // terminating RA: router lifetime forced to 0
+	uninit bool  // the interface has never been initialised: no address/route source, no MAC
 }
 
 type modelOut struct {
@@ -387,6 +388,10 @@ func expectRA(in modelIn) *modelOut {
 
 	ai, ri := 0, 0
 	nextAddr := func() ([]laddr, bool) {
+		if in.uninit {
+			m.fail = "interface never initialised: its addresses cannot be listed"
+			return nil, false
+		}
 		if ai >= len(in.addr) {
 			m.fail = "model: build made fewer address listings than the configuration needs"
 			return nil, false
@@ -434,6 +439,10 @@ func expectRA(in modelIn) *modelOut {
 		var nets []netip.Prefix
 		if r.Prefix == nil || *r.Prefix == "" || *r.Prefix == "::/0" {
 			var all []netip.Prefix
+			if in.uninit {
+				m.fail = "interface never initialised: loopback routes cannot be listed"
+				return m
+			}
 			for k := 0; k < in.nLoop; k++ {
 				if ri >= len(in.routes) {
 					m.fail = "model: build made fewer route listings than the configuration needs"
